@@ -36,6 +36,8 @@ EXPLANATION = (
   ' (LOOP-break) no loop over the items of a collection is left by a branch that does nothing but `break` on a test about the item (end-of-input sentinels, flags set in the loop body and searches whose variable is read afterwards excepted): an item that is to be skipped does not end the processing of the items after it;'
   ' (FIN-regex) the WebVTT timestamp, percentage and line-number patterns accept / reject the probe values written from the WebVTT syntax (a line number 0 or -0 is a number);'
   + common.SHARED_CLAUSES['text']
+  + " (TAINT, shared with C07) the WebVTT writer passes model text through an escaping function that, interpreted on probe texts (bare & < >, text that already looks like a character reference), escapes every & < > exactly once, so the reader's decoding restores the text;"
+  + " (FIN-tokens) the WebVTT cue text tokenizer, interpreted on probe texts, decodes named, decimal and hexadecimal character references (&nbsp; &lrm; &rlm; included), leaves an ampersand that starts no reference as it is, and turns tags into start / end / timestamp tokens with their classes and annotation;"
 )
 RULE_TEXT = "per call site / function / enum / printed sample"
 UNDECIDED = ["cue-setting geometry (line numbers <= 0, position with size)", "tag scoping", "region sharing for equal settings"]
@@ -445,7 +447,12 @@ def check_level_owners(ctx):
 
 
 def run(ctx):
+  from ..rules import probes as _probes
+  ctx.floor("FIN-tokens", "probe texts decided", _probes.check_cue_tokens(ctx), 12)
   common.check_shared_helpers(ctx, text=True)
+  # the other half of the round trip: what the writer escapes is what the reader's tokenizer decodes (as in C07)
+  from . import c07 as _c07
+  _c07.check_escaping(ctx)
   ix = ctx.ix
   nul.IMPLICATIONS.clear()
   RUBY_INV_OK[0] = bool(check_ruby_invariant(ctx))
